@@ -19,7 +19,8 @@ From Verif Require Import lib.Base lib.Str model.Stream model.Body.
 Record req := mkReq {
   r_input : nat;                 (* which stream environ['wsgi.input'] refers to (until buffered) *)
   r_cache : option (list N);     (* environ['ombott.request.body'] : content of the buffered body *)
-  r_cl    : Z                    (* int(environ.get('CONTENT_LENGTH') or -1) *)
+  r_cl    : Z;                   (* int(environ.get('CONTENT_LENGTH') or -1) *)
+  r_failed : bool                (* environ['ombott.request.body_error'] is set: an earlier read failed (F43) *)
 }.
 
 Record world := mkWorld { w_streams : list stream; w_reqs : list req }.
@@ -35,6 +36,7 @@ Inductive out :=
 | OutBytes (b : list N)
 | OutNew (r : nat)            (* index of the copy *)
 | OutUnit
+| OutErr                      (* the body was refused (BodySizeError -> 413), now or at an earlier access *)
 | OutBadReq                   (* no such request object: a harness error *)
 | OutFuel.
 
@@ -52,6 +54,7 @@ Definition dummy_stream : stream := stream_init [] [].
 
 Section Step.
 Variable buf : nat.             (* config.max_memfile_size, shared by the family *)
+Variable maxb : option nat.     (* config.max_body_size *)
 
 Definition step (w : world) (o : op) : world * out :=
   match o with
@@ -59,14 +62,20 @@ Definition step (w : world) (o : op) : world * out :=
     match nth_error (w_reqs w) r with
     | None => (w, OutBadReq)
     | Some rq =>
+      if r_failed rq then (w, OutErr)                     (* the first failure is final: no stream is touched *)
+      else
       match r_cache rq with
       | Some c => (w, OutBytes (take_opt k c))            (* cached: rewound, read *)
       | None =>
-        match body_read_cl (nth (r_input rq) (w_streams w) dummy_stream) buf None (r_cl rq) with
+        match body_read_cl (nth (r_input rq) (w_streams w) dummy_stream) buf maxb (r_cl rq) with
         | BDone body _ s' =>
           (mkWorld (set_nth (r_input rq) s' (w_streams w))
-                   (set_nth r (mkReq (r_input rq) (Some body) (r_cl rq)) (w_reqs w)),
+                   (set_nth r (mkReq (r_input rq) (Some body) (r_cl rq) false) (w_reqs w)),
            OutBytes (take_opt k body))
+        | BTooLarge s' =>
+          (mkWorld (set_nth (r_input rq) s' (w_streams w))
+                   (set_nth r (mkReq (r_input rq) None (r_cl rq) true) (w_reqs w)),
+           OutErr)
         | _ => (w, OutFuel)
         end
       end
@@ -79,7 +88,7 @@ Definition step (w : world) (o : op) : world * out :=
   | OSetCL r v =>
     match nth_error (w_reqs w) r with
     | None => (w, OutBadReq)
-    | Some rq => (mkWorld (w_streams w) (set_nth r (mkReq (r_input rq) (r_cache rq) v) (w_reqs w)), OutUnit)
+    | Some rq => (mkWorld (w_streams w) (set_nth r (mkReq (r_input rq) (r_cache rq) v (r_failed rq)) (w_reqs w)), OutUnit)
     end
   | OSetOther r =>
     match nth_error (w_reqs w) r with
@@ -91,7 +100,7 @@ Definition step (w : world) (o : op) : world * out :=
     | None => (w, OutBadReq)
     | Some rq =>
       (mkWorld (w_streams w ++ [stream_init data sc])
-               (set_nth r (mkReq (length (w_streams w)) None (r_cl rq)) (w_reqs w)), OutUnit)
+               (set_nth r (mkReq (length (w_streams w)) None (r_cl rq) false) (w_reqs w)), OutUnit)
     end
   end.
 
@@ -105,12 +114,12 @@ End Step.
 
 (* one request over one server stream *)
 Definition world_init (data : list N) (sc : list nat) (cl : Z) : world :=
-  mkWorld [stream_init data sc] [mkReq 0 None cl].
+  mkWorld [stream_init data sc] [mkReq 0 None cl false].
 
 (* ---- correspondence interface (mode 1 of corr_C04_all) ----
-   input : cl ; buf ; data ; sched ; ops   with op =
+   input : cl ; buf ; has_max ; max ; data ; sched ; ops   with op =
            0 r hask k | 1 r | 2 r v | 3 r | 4 r data sched
-   output: one entry per op (0 bytes | 1 index | 2 | 3 | 9), then for every stream its final
+   output: one entry per op (0 bytes | 1 index | 2 | 3 | 4 refused | 9), then for every stream its final
            position and its logged requests *)
 Definition dec_op (l : list Z) : option (op * list Z) :=
   match l with
@@ -136,19 +145,21 @@ Definition enc_out (o : out) : list Z :=
   | OutNew r => [1%Z; Z.of_nat r]
   | OutUnit => [2%Z]
   | OutBadReq => [3%Z]
+  | OutErr => [4%Z]
   | OutFuel => [9%Z]
   end.
 
 Definition corr_C04_ops (inp : list Z) : list Z :=
   match inp with
-  | cl :: buf :: r =>
+  | cl :: buf :: hm :: mx :: r =>
     match dec_str r with
     | Some (data, r1) =>
       match dec_list dec_nat_item r1 with
       | Some (sc, r2) =>
         match dec_list dec_op r2 with
         | Some (ops, _) =>
-          let (w, outs) := run (Z.to_nat buf) (world_init data sc cl) ops in
+          let maxb := if Z.eqb hm 0 then None else Some (Z.to_nat mx) in
+          let (w, outs) := run (Z.to_nat buf) maxb (world_init data sc cl) ops in
           enc_list enc_out outs ++ enc_list enc_reqs (w_streams w)
         | None => bad_input
         end
